@@ -321,6 +321,7 @@ Section NewIsDefine.
     dv_members : map fst (filter (fun kv => str_in (fst kv) names) ents) = names;
     dv_attrs : forall n u, In (n, u) (s_attrs s) -> exists v, In (n, v) ents /\ aval_ok n u v = true;
     dv_attr_names : NoDup (map fst (s_attrs s));
+    dv_attr_fresh : forall n u, In (n, u) (s_attrs s) -> str_in n reserved_keys = false;
     dv_required : alist_get ents (s2p "_required") = option_map v_names (s_required s);
     dv_optional : alist_get ents (s2p "_optional") = option_map v_names (s_optional s);
     dv_addl : alist_get ents n_addl = option_map PBool (s_additional s);
@@ -441,10 +442,10 @@ Section NewIsDefine.
 
   Lemma reserved_special k : str_in k reserved_keys = true ->
     (str_in k special_attrs = true \/ starts_with (s2p "__") k = true) /\
-    (Define.is_sunder k || Define.is_dunder k = true).
+    (Define.is_sunder k || Define.is_dunder k = true) /\ (known_attr k || Define.is_dunder k = true).
   Proof.
     intro H. apply str_in_In in H. unfold reserved_keys in H. cbn [map In] in H.
-    repeat (destruct H as [<-|H]; [vm_compute; split; [tauto|reflexivity]|]). destruct H.
+    repeat (destruct H as [<-|H]; [vm_compute; split; [tauto|split; reflexivity]|]). destruct H.
   Qed.
 
   (* every member name has an object; [ms] are the same members as [pre], possibly with other defaults *)
@@ -580,7 +581,7 @@ Section NewIsDefine.
           rewrite ?andb_false_r; try reflexivity.
         rewrite Hbl. cbn [bind]. rewrite andb_true_r. destruct (gd_block_non_typedpy gd); reflexivity.
       - (* __module__, _required, ...: sunder or dunder names *)
-        destruct (reserved_special k Hr) as [_ Hsd].
+        destruct (reserved_special k Hr) as [_ [Hsd _]].
         assert (Eb : bad (k, v) = false).
         { unfold bad. cbn [fst]. destruct (gd_block_non_typedpy gd); [|reflexivity]. cbn [andb].
           destruct (existsb _ (s_attrs s)) eqn:E; [|reflexivity]. apply existsb_exists in E as [[n u] [Hnu Hb]].
@@ -805,6 +806,7 @@ Section NewIsDefine.
   Hypothesis Hc_fresh : find_klass g c = None.
   Hypothesis Hc_structure : c <> n_Structure.
   Hypothesis Hc_tpd : c <> n_TypedPyDefaults.
+  Hypothesis Htpd_fresh : find_klass g n_TypedPyDefaults = None.
   Hypothesis Hnames_reserved : forallb (fun n => negb (str_in n reserved_keys)) names = true.
 
   Lemma del1_get' (l : list (pystr * pyval)) k k' : k' <> k -> alist_get (del1 l k) k' = alist_get l k'.
@@ -1357,5 +1359,92 @@ Section NewIsDefine.
     destruct (forallb (fun nv => const_type_ok (snd nv)) (constants_of (map (fun p => (fst p, snd (snd p))) P))).
     - destruct G as [h' [G1 G2]]. exists h'. rewrite G1. split; [reflexivity|exact G2].
     - rewrite G. reflexivity.
+  Qed.
+
+  (* ---------------------------------------------------------------- _required, _optional, unknown attributes, the signature *)
+
+  Lemma ents2_get req k : k <> s2p "_defaults" ->
+    alist_get (ents2 req) k = if pystr_eqb k (s2p "_required") then Some (v_names req) else alist_get ents k.
+  Proof.
+    intro Hk. unfold ents2. rewrite del1_get' by exact Hk. destruct (pystr_eqb k (s2p "_required")) eqn:E.
+    - apply pystr_eqb_spec in E. subst k. apply alist_get_set_same.
+    - apply alist_get_set_other. intro; subst k. rewrite pystr_eqb_refl in E. discriminate.
+  Qed.
+
+  Lemma In_ents2 req k v : In (k, v) (ents2 req) -> (k = s2p "_required" /\ v = v_names req) \/ In (k, v) ents.
+  Proof.
+    unfold ents2. intro H. apply In_del1 in H. apply In_alist_set in H as [H|H]; [left; inversion H; split; reflexivity|right; exact H].
+  Qed.
+
+  Lemma new_optional_fields h req :
+    StructMeta_new__set_optional_fields so X h (PDict (skeys (ents2 req))) = Ok (v_names (opt_list (s_optional s))).
+  Proof.
+    unfold StructMeta_new__set_optional_fields. rewrite dict_get_skeys_def, ents2_get by discriminate.
+    replace (pystr_eqb (s2p "_optional") (s2p "_required")) with false by reflexivity. rewrite (dv_optional Hdv).
+    destruct (s_optional s); reflexivity.
+  Qed.
+
+  Lemma new_old_additional h req :
+    StructMeta_new__if_OLD_ADDITIONAL_PROPERTIES_cls_dict so X h (PDict (skeys (ents2 req))) (ref c) = Ok (h, PDict (skeys (ents2 req))).
+  Proof.
+    unfold StructMeta_new__if_OLD_ADDITIONAL_PROPERTIES_cls_dict. rewrite in_skeys. unfold alist_has.
+    change (s2p "_additionalProperties") with n_addl_old. rewrite ents2_get by discriminate.
+    replace (pystr_eqb n_addl_old (s2p "_required")) with false by reflexivity. rewrite (dv_addl_old Hdv). reflexivity.
+  Qed.
+
+  Definition addl_of : bool := match s_additional s with Some b => b | None => gd_additional_default gd end.
+
+  Lemma new_additional_props mro ms an h req : cheap mro ms an h ->
+    StructMeta_new__set_additional_props so X h (PDict (skeys (ents2 req))) = Ok (PBool addl_of).
+  Proof.
+    intros [M _ _]. unfold StructMeta_new__set_additional_props.
+    pose proof (agree_env_view _ _ _ _ (mh_env _ _ _ _ _ M)) as Hev.
+    rewrite (ev_addl_default _ _ _ _ Hev).
+    2:{ rewrite find_klass_kc. destruct (pystr_eqb c n_TypedPyDefaults) eqn:E; [apply pystr_eqb_spec in E; contradiction|].
+        exact Htpd_fresh. }
+    cbn [bind]. rewrite dict_get_skeys_def. change (s2p "_additional_properties") with n_addl. rewrite ents2_get by discriminate.
+    replace (pystr_eqb n_addl (s2p "_required")) with false by reflexivity. rewrite (dv_addl Hdv). unfold addl_of.
+    destruct (s_additional s); reflexivity.
+  Qed.
+
+  Lemma ents2_keep req k v : In (k, v) ents -> k <> s2p "_required" -> k <> s2p "_defaults" -> In (k, v) (ents2 req).
+  Proof.
+    intros Hin H1 H2. apply alist_get_In. rewrite ents2_get by exact H2.
+    destruct (pystr_eqb k (s2p "_required")) eqn:E; [apply pystr_eqb_spec in E; contradiction|].
+    apply In_alist_get_NoDup; [apply (dv_nodup Hdv)|exact Hin].
+  Qed.
+
+  (* if TypedPyDefaults.block_unknown_consts: _block_invalid_consts(cls_dict) *)
+  Lemma new_block mro ms an h req : cheap mro ms an h -> same_members ms ->
+    (forall n u, In (n, u) (s_attrs s) -> str_in n (map fst an) = false) ->
+    (ann = [] -> an = []) ->
+    StructMeta_new__if_TypedPyDefaults so X h (PDict (skeys (ents2 req))) =
+    if gd_block_unknown_consts gd && existsb invalid_const (s_attrs s) then Raise ValueError else Ok tt.
+  Proof.
+    intros [M _ _] Hs Hna Hann0. unfold StructMeta_new__if_TypedPyDefaults. rewrite getattr_ref.
+    change (s2p "TypedPyDefaults") with n_TypedPyDefaults. rewrite (mh_tpd_block _ _ _ _ _ M). cbn [bind deref py_truthy].
+    destruct (gd_block_unknown_consts gd); cbn [andb bind]; [|reflexivity].
+    assert (Hmatch : forall n u v, aval_ok n u v = true -> uval_matches h u v = true).
+    { intros n u v Hv. unfold uval_matches. destruct u, v as [| |[| |]| | | | | | | | |t o]; try discriminate; try reflexivity.
+      cbn [aval_ok] in Hv. apply andb_true_iff in Hv as [H1 H2]. apply pystr_eqb_spec in H1, H2. subst t o.
+      fold (ref (tyobj n)). rewrite deref_ref. destruct (mh_type _ _ _ _ _ M n) as [_ B]. rewrite B by (cbn [In]; tauto). reflexivity. }
+    rewrite (block_invalid_consts_src so X h s (ents2 req) an).
+    - destruct (existsb invalid_const (s_attrs s)); reflexivity.
+    - unfold annotations_are. rewrite ents2_get by discriminate.
+      replace (pystr_eqb (s2p "__annotations__") (s2p "_required")) with false by reflexivity. rewrite (dv_ann Hdv).
+      destruct ann as [|a0 t0]; [rewrite (Hann0 eq_refl); reflexivity|]. rewrite deref_ref. rewrite (proj1 (mh_ann _ _ _ _ _ M)). reflexivity.
+    - intros n u Hnu. split; [apply Hna with u; exact Hnu|]. destruct (dv_attrs Hdv n u Hnu) as [v [Hin Hv]]. exists v.
+      pose proof (dv_attr_fresh Hdv n u Hnu) as Hfr.
+      split; [|apply (Hmatch n u v Hv)]. apply ents2_keep; [exact Hin| |]; intro E; subst n; discriminate.
+    - intros k v Hin Hbad. destruct (In_ents2 req k v Hin) as [[-> ->]|Hin'].
+      + unfold bad_entry in Hbad. cbn [fst snd] in Hbad. replace (known_attr (s2p "_required")) with true in Hbad by reflexivity.
+        rewrite orb_true_r in Hbad. cbn [orb negb andb] in Hbad. discriminate.
+      + destruct (dv_kinds Hdv k v Hin') as [Hk ->|u Hk Hu Hv|Hk Hr Hv].
+        * unfold bad_entry in Hbad. cbn [fst snd] in Hbad. rewrite deref_ref in Hbad.
+          rewrite (mh_mnone _ _ _ _ _ M k n_dict_content) in Hbad by (cbn [In]; tauto). rewrite andb_false_r in Hbad. discriminate.
+        * exists u. split; [exact Hu|apply (Hmatch k u v Hv)].
+        * destruct (reserved_special k Hr) as [_ [_ Hkn]]. unfold bad_entry in Hbad. cbn [fst snd] in Hbad.
+          apply andb_true_iff in Hbad as [Hb _]. apply negb_true_iff in Hb. apply orb_false_iff in Hb as [Hb _].
+          apply orb_false_iff in Hb as [Hb Hd]. apply orb_false_iff in Hb as [_ Hb]. rewrite Hb, Hd in Hkn. discriminate.
   Qed.
 End NewIsDefine.
